@@ -336,7 +336,7 @@ def gen_threads(rng):
 
 def scale_case(action, fire_count, run_kind, n, tail, rng=None):
     """a long run of rejected hits (failing / false / mixed conditions), then `tail` more hits"""
-    fails = [{'k': 'raise', 'cls': 'NameError', 'msg': "name 'nope' is not defined"}, {'k': 'raise', 'cls': 'ValueError', 'msg': 'true'},
+    fails = [{'k': 'raise', 'cls': 'RuntimeError', 'msg': 'condition is broken'}, {'k': 'raise', 'cls': 'ValueError', 'msg': 'true'},
              {'k': 'raise', 'cls': 'HostInterrupt', 'msg': 'y'}, {'k': 'raise', 'cls': 'KeyError', 'msg': 1}]
     hits, ts = [], 1000
     for i in range(n):
